@@ -21,7 +21,7 @@ CHECKS = {
    note=L2_NOTE + " Disk is the in-memory SimDisk behind TempFileFactory/SpillFile/SpillWriter."),
  "C17": dict(level="exploration", engine="l2", ref="§3 C17",
    technique="deterministic simulation: model-based sequential histories plus shuttle schedule search over threads sharing reservations; reference model of pool totals, limits, fair shares, per-consumer and peak metrics",
-   text="Sequential histories (<=40 ops, all reservation operations, 3 pool kinds x TrackConsumers x PeakRecording) are compared operation by operation with a reference model; concurrent cases run 2-3 shuttle threads over shared Arc<MemoryReservation>s with scheduling points in front of every atomic and check totals, limits and metrics at quiescence and through a concurrent observer. Known findings (FairSpillPool per-reservation share check) are listed in known-findings.txt.",
+   text="Sequential histories (<=40 ops, all reservation operations, 3 pool kinds x TrackConsumers x PeakRecording) are compared operation by operation with a reference model; concurrent cases run 2-3 shuttle threads over shared Arc<MemoryReservation>s with scheduling points in front of every atomic and check totals, limits and metrics at quiescence and through a concurrent observer; a third scenario races one resize/try_resize to an absolute size against concurrent growth of the same shared reservation (the pool's total must equal the reservation's size afterwards). Known findings (FairSpillPool per-reservation share check) are listed in known-findings.txt.",
    note=L2_NOTE),
 }
 
@@ -34,7 +34,7 @@ CHECKS.update({
    "Real RepartitionExec (round-robin, hash on 1-3 keys, range on 1-3 keys with 0-7 split points incl. NULL split values, preserve_order) over scripted input partitions (incl. zero-row batches), consumed by one simulated task per output, under memory pressure that forces spilled batches, tiny spill files, early drops of some outputs. Every input row must arrive exactly once at the output hash % n names, at the output the split points select (checked against RangeExpr::evaluate as well), or at any output for round-robin, sorted where order is preserved; rows to dropped outputs are excused; afterwards no task, reservation, spill file or input stream may be left."),
  "C02": l1("exploration", "§3 C02",
    "deterministic simulation: seeded schedules x random semantic-neutral configurations x partitionings of the same SQL query through the real planner; differential oracle against baseline configuration or reference evaluator",
-   "The property is an independence statement, so the oracle is differential: one generated query (joins, aggregates, sorts, windows, unions, subqueries) over generated tables split into 1-4 scripted partitions runs under a random configuration, 1-3 copies concurrently in one session, under a seeded task schedule; the result must equal the independent reference where one exists, else the single-partition default-configuration run."),
+   "The property is an independence statement, so the oracle is differential: one generated query (joins, aggregates, sorts, windows, unions, subqueries) over generated tables split into 1-4 scripted partitions runs under a random configuration, 1-3 copies concurrently in one session, under a seeded task schedule; in a quarter of the runs the tables are Parquet/NDJSON files in the simulated object store behind listing tables (file groups, byte-range repartitioning, the shared work queue of sibling scan partitions, Parquet pruning/pushdown options, chunked and delayed GETs); the result must equal the independent reference where one exists, else the single-partition default-configuration run."),
  "C05": l1("exploration", "§3 C05/C06/C08",
    "deterministic simulation: seeded schedules/partitionings/memory budgets of generated join queries through the real planner; nested-loop reference with SQL three-valued logic",
    "Explores the environment dimension of the statement (arrival interleavings of both sides and sibling partitions, batching, partitioning, memory budget) for every join operator the planner can pick (hash collect-left/partitioned incl. perfect-hash and buffering knobs, sort-merge, nested-loop, piecewise-merge, cross; inner/outer/semi/anti/mark joins, NOT IN, INTERSECT/EXCEPT) plus SymmetricHashJoinExec at operator level over bounded scripted inputs (all join types, null equality, sliding-window filter with pruning, partitioned mode), against an independent nested-loop reference. Join keys are read through casts to Int64/Float64/Decimal/Boolean/Date32/Utf8/Dictionary/Utf8View/UInt16/Int8 in a third of the runs. Not a claim about every key type."),
@@ -58,7 +58,7 @@ CHECKS.update({
    text="(a) mixed-type batch sequences (views, dictionaries, lists, structs, NULLs, slices, empty batches) x codecs x read-buffer sizes round-trip through the real spill writer/reader on SimDisk with seeded read chunking; (b) create/write/finish/clone/drop/set_limit histories on the real disk manager with EFBIG injected at a generated file size and limit rejections: after every step used_disk_space equals the acknowledged bytes of live files, never exceeds the limit after an admitted write, returns to 0, temp files disappear; (c) 2-3 concurrent writers under shuttle."),
  "C31": dict(level="exploration", engine="l1+l2", ref="§3 C31", note=L1_NOTE + " The filter object itself is explored under L2 (shuttle).",
    technique="deterministic simulation: seeded schedules of build/probe/sibling-partition interleavings with scans that accept pushed-down dynamic filters and re-evaluate them per batch, reference-evaluator oracle; shuttle schedule search over the filter object (update/current/cache/wait_complete)",
-   text="L1: joins of every type, TopK sorts and grouped aggregates planned by the real optimizer with dynamic filter pushdown forced on, over simulated scans that accept the pushed filters and evaluate current() on every batch; arrival order of build side, probe side and partitions decided by the seeded scheduler; a wrongly pruned row shows up as a row missing from the reference result. L2: concurrent update/current/with_new_children/mark_complete/wait_complete histories on the real DynamicFilterPhysicalExpr: only published values, monotone per reader, at least every completed update, remap applied, no lost completion wake-up."),
+   text="L1: joins of every type, TopK sorts and grouped aggregates planned by the real optimizer with dynamic filter pushdown forced on, over simulated scans that accept the pushed filters and evaluate current() on every batch; arrival order of build side, probe side and partitions decided by the seeded scheduler; a wrongly pruned row shows up as a row missing from the reference result. Half of the runs read Parquet/NDJSON files through listing tables (row groups of 1-1000 rows, pushdown_filters/reorder_filters/page index/bloom filter options) so that the Parquet opener's dynamic re-pruning runs; recursive CTEs re-execute a hash join with a different build side per iteration. L2: concurrent update/current/with_new_children/mark_complete/wait_complete histories on the real DynamicFilterPhysicalExpr: only published values, monotone per reader, at least every completed update, remap applied, no lost completion wake-up."),
  "C26": l1("exploration", "§3 C26",
    "deterministic simulation of the object-store seam: seeded chunking/Pending/latency of GET bodies under seeded task schedules, byte ranges cut at seeded positions; oracle: concatenation of the ranges equals the file, every range starts at a record start; end-to-end CSV/NDJSON listing scans against the files' records",
    "AlignedBoundaryStream for every range of a seeded partition of a generated file (empty lines, CRLF, trailing newline or not, lines beyond the 16 KiB lookahead; half of the cuts on or next to a line break) over a simulated object store that decides how GET bodies are chunked (1 byte .. whole) and when a chunk is not ready; plus repartitioned CSV/NDJSON scans through ListingTable with tiny repartition_file_min_size and 1-8 partitions."),
